@@ -538,3 +538,520 @@ def inline_predicates(trees: dict[str, ast.Module], known_funcs: set[str], pkgs:
         Inl().visit(tree)
         ast.fix_missing_locations(tree)
     return count
+
+
+# ------------------------------------------------------------------ private sub-records dissolved into plain fields
+
+def _tokens(name: str) -> list[str]:
+    return [t for t in name.lower().strip("_").split("_") if t]
+
+
+def _tok_score(a: str, b: str) -> float:
+    """overlap of the name tokens of two identifiers (a token matches its own inflection: start / started)"""
+    ta, tb = _tokens(a), _tokens(b)
+    if not ta or not tb:
+        return 0.0
+
+    def same(x: str, y: str) -> bool:
+        return x == y or (min(len(x), len(y)) >= 4 and (x.startswith(y) or y.startswith(x)))
+
+    hit = sum(1 for x in ta if any(same(x, y) for y in tb))
+    return hit / max(len(ta), len(tb)) if hit else 0.0
+
+
+def _known_attrs() -> dict[str, list[str]]:
+    import json
+    import os
+
+    try:
+        with open(os.path.join(os.path.dirname(os.path.abspath(__file__)), "known_attrs.json")) as fh:
+            return json.load(fh)
+    except OSError:
+        return {}
+
+
+def _record_fields(tree: ast.Module) -> dict[str, list[tuple[str, ast.expr | None]]]:
+    """plain record classes of this module (dataclass / NamedTuple, no method that could intercept construction or
+    field access, no method at all named like a field) -> [(field, default expression or None)] in order"""
+    out: dict[str, list[tuple[str, ast.expr | None]]] = {}
+    for c in tree.body:
+        if not isinstance(c, ast.ClassDef):
+            continue
+        is_nt = any(ast.unparse(b).split(".")[-1] == "NamedTuple" for b in c.bases)
+        is_dc = any(ast.unparse(d).split("(")[0].split(".")[-1] == "dataclass" for d in c.decorator_list)
+        if not (is_nt or is_dc) or (is_dc and c.bases):
+            continue
+        if any(isinstance(st, (ast.FunctionDef, ast.AsyncFunctionDef)) for st in c.body):
+            continue  # a record with behaviour is analysed as the class it is
+        fields = [(st.target.id, st.value) for st in c.body if isinstance(st, ast.AnnAssign) and isinstance(st.target, ast.Name)]
+        if fields:
+            out[c.name] = fields
+    return out
+
+
+def _default_value(d: ast.expr | None) -> ast.expr | None:
+    import copy
+
+    if d is None:
+        return None
+    if isinstance(d, ast.Call) and ast.unparse(d.func).split(".")[-1] == "field":
+        kw = {k.arg: k.value for k in d.keywords}
+        if "default_factory" in kw:
+            return ast.Call(func=copy.deepcopy(kw["default_factory"]), args=[], keywords=[])
+        if "default" in kw:
+            return copy.deepcopy(kw["default"])
+        return None
+    return copy.deepcopy(d)
+
+
+def dissolve_subrecords(trees: dict[str, ast.Module]) -> dict[str, dict[str, str]]:
+    """`self._status = _Status()` with `_Status` a plain private record of this module, reached only as
+    `self._status.<field>` (read or written), through a local bound once to it (`status = self._status`), or replaced as
+    a whole by a fresh `_Status(...)`: the record is storage layout, not behaviour - each field is a field of the object
+    itself.  The tree is rewritten in memory to that flat form (`self._status.state` -> `self._state`; the whole-record
+    store becomes one store per field, the alias disappears).  A field takes the name of the read-only property that
+    does nothing but return it (`def last_exc(self): return self._last.exc` - the property is dropped: reading a field),
+    else the recorded attribute name of the class (sa/known_attrs.json) that its own name abbreviates, else
+    `<record>__<field>`.  Afterwards a recorded attribute that vanished while exactly one new private attribute with an
+    overlapping name appeared is that attribute renamed (`start_mono` -> `_started_mono`).  Any other use of the record
+    (passed on, returned, compared, reached from outside the class) leaves the class untouched."""
+    import copy
+
+    known = _known_attrs()
+    done: dict[str, dict[str, str]] = {}
+    attr_uses: dict[str, dict[str, int]] = {}  # module -> attribute name -> count
+    for mname, tree in trees.items():
+        cnt: dict[str, int] = {}
+        for n in ast.walk(tree):
+            if isinstance(n, ast.Attribute):
+                cnt[n.attr] = cnt.get(n.attr, 0) + 1
+        attr_uses[mname] = cnt
+
+    def used_outside(mname: str, attr: str, inside: int) -> bool:
+        return any(c.get(attr, 0) for m, c in attr_uses.items() if m != mname) or attr_uses[mname].get(attr, 0) != inside
+
+    for mname, tree in trees.items():
+        recs = _record_fields(tree)
+        for cls in [c for c in tree.body if isinstance(c, ast.ClassDef)]:
+            qual = f"{mname}:{cls.name}"
+            if cls.name in recs:
+                continue
+            init = next((st for st in cls.body if isinstance(st, ast.FunctionDef) and st.name == "__init__"), None)
+            if init is None or not init.args.args:
+                continue
+            parent: dict[int, ast.AST] = {}
+            for n in ast.walk(cls):
+                for ch in ast.iter_child_nodes(n):
+                    parent[id(ch)] = n
+
+            def enclosing(n: ast.AST) -> ast.AST | None:
+                while n is not None and not isinstance(n, (ast.FunctionDef, ast.AsyncFunctionDef)):
+                    n = parent.get(id(n))
+                return n
+
+            selfn = init.args.args[0].arg
+            cands = []
+            for st in init.body:
+                tgt = val = None
+                if isinstance(st, ast.Assign) and len(st.targets) == 1:
+                    tgt, val = st.targets[0], st.value
+                elif isinstance(st, ast.AnnAssign) and st.value is not None:
+                    tgt, val = st.target, st.value
+                if isinstance(tgt, ast.Attribute) and isinstance(tgt.value, ast.Name) and tgt.value.id == selfn and tgt.attr.startswith("_") and isinstance(val, ast.Call) and isinstance(val.func, ast.Name) and val.func.id in recs:
+                    cands.append((tgt.attr, val.func.id))
+            ren_all: dict[str, str] = {}
+            for S, R in cands:
+                fields = recs[R]
+                fnames = [f for f, _ in fields]
+                occ = [n for n in ast.walk(cls) if isinstance(n, ast.Attribute) and n.attr == S]
+                if used_outside(mname, S, len(occ)):
+                    continue
+                field_uses: list[ast.Attribute] = []
+                wholes: list[ast.stmt] = []
+                aliases: list[tuple[ast.Assign, ast.AST]] = []
+                ok = True
+                for n in occ:
+                    fn = enclosing(n)
+                    if fn is None or not fn.args.args or not (isinstance(n.value, ast.Name) and n.value.id == fn.args.args[0].arg):
+                        ok = False
+                        break
+                    par = parent.get(id(n))
+                    if isinstance(par, ast.Attribute) and par.value is n and par.attr in fnames:
+                        field_uses.append(par)
+                    elif isinstance(par, (ast.Assign, ast.AnnAssign)) and isinstance(n.ctx, ast.Store) and isinstance(par.value, ast.Call) and isinstance(par.value.func, ast.Name) and par.value.func.id == R and (isinstance(par, ast.AnnAssign) or len(par.targets) == 1):
+                        wholes.append(par)
+                    elif isinstance(par, ast.Assign) and par.value is n and len(par.targets) == 1 and isinstance(par.targets[0], ast.Name):
+                        aliases.append((par, fn))
+                    else:
+                        ok = False
+                        break
+                if not ok:
+                    continue
+                alias_uses: list[tuple[ast.Attribute, str]] = []
+                for a_st, fn in aliases:
+                    nm = a_st.targets[0].id
+                    names = [x for x in ast.walk(fn) if isinstance(x, ast.Name) and x.id == nm]
+                    if sum(1 for x in names if isinstance(x.ctx, (ast.Store, ast.Del))) != 1 or nm in {a.arg for a in fn.args.args + fn.args.kwonlyargs}:
+                        ok = False
+                        break
+                    for x in names:
+                        if isinstance(x.ctx, ast.Load):
+                            par = parent.get(id(x))
+                            if isinstance(par, ast.Attribute) and par.value is x and par.attr in fnames:
+                                alias_uses.append((par, fn.args.args[0].arg))
+                            else:
+                                ok = False
+                                break
+                    if not ok:
+                        break
+                if not ok or (aliases and any(enclosing(w) is not init for w in wholes)):
+                    continue
+                # constructor bindings of every whole-record store
+                bound: list[tuple[ast.stmt, dict[str, ast.expr]]] = []
+                for w in wholes:
+                    call = w.value
+                    if any(isinstance(a, ast.Starred) for a in call.args) or any(k.arg is None for k in call.keywords) or len(call.args) > len(fields):
+                        ok = False
+                        break
+                    vals: dict[str, ast.expr] = {f: a for (f, _), a in zip(fields, call.args)}
+                    for k in call.keywords:
+                        if k.arg not in fnames or k.arg in vals:
+                            ok = False
+                            break
+                        vals[k.arg] = k.value
+                    for f, d in fields:
+                        if f not in vals:
+                            dv = _default_value(d)
+                            if dv is None and not (isinstance(d, ast.Constant) and d.value is None):
+                                ok = False
+                                break
+                            vals[f] = dv if dv is not None else ast.Constant(value=None)
+                    if not ok:
+                        break
+                    bound.append((w, vals))
+                if not ok:
+                    continue
+                # names of the flat fields
+                props: dict[str, tuple[str, ast.FunctionDef]] = {}
+                setters = {ast.unparse(d).split(".")[0] for st in cls.body if isinstance(st, ast.FunctionDef) for d in st.decorator_list if ast.unparse(d).endswith((".setter", ".deleter"))}
+                for st in cls.body:
+                    if isinstance(st, ast.FunctionDef) and len(st.decorator_list) == 1 and ast.unparse(st.decorator_list[0]) == "property" and st.name not in setters and len(st.args.args) == 1:
+                        body = [b for b in st.body if not (isinstance(b, ast.Expr) and isinstance(b.value, ast.Constant))]
+                        if len(body) == 1 and isinstance(body[0], ast.Return) and isinstance(body[0].value, ast.Attribute) and body[0].value.attr in fnames:
+                            inner = body[0].value.value
+                            if isinstance(inner, ast.Attribute) and inner.attr == S and isinstance(inner.value, ast.Name) and inner.value.id == st.args.args[0].arg and body[0].value.attr not in props:
+                                props[body[0].value.attr] = (st.name, st)
+                stored = {n.attr for n in ast.walk(cls) if isinstance(n, ast.Attribute) and isinstance(n.ctx, (ast.Store, ast.Del))}
+                members = {st.name for st in cls.body if isinstance(st, (ast.FunctionDef, ast.AsyncFunctionDef))}
+                missing = [k for k in known.get(qual, []) if k not in stored and k not in members and k not in ren_all.values()]
+                canon: dict[str, str] = {}
+                for f in fnames:
+                    if f in props and props[f][0] not in stored:
+                        canon[f] = props[f][0]
+                for f in fnames:
+                    if f in canon:
+                        continue
+                    scored = sorted(((_tok_score(f, k), k) for k in missing if k not in canon.values()), reverse=True)
+                    if scored and scored[0][0] > 0 and (len(scored) == 1 or scored[1][0] < scored[0][0]):
+                        canon[f] = scored[0][1]
+                for f in fnames:
+                    canon.setdefault(f, f"{S}__{f}")
+                if len(set(canon.values())) != len(canon) or any(c in stored or (c in members and not (f in props and props[f][0] == c)) for f, c in canon.items()):
+                    continue
+                # a constructor argument that reads the object's own fields would observe the field-by-field store
+                cn = set(canon.values()) | {p for p, _ in props.values()} | {S}
+                if any(isinstance(x, ast.Attribute) and x.attr in cn for _, vals in bound for v in vals.values() for x in ast.walk(v)):
+                    continue
+                # rewrite
+                for par in field_uses:
+                    par.attr = canon[par.attr]
+                    par.value = par.value.value  # self._status.state -> self.<canon>
+                for par, sn in alias_uses:
+                    par.attr = canon[par.attr]
+                    par.value = ast.copy_location(ast.Name(id=sn, ctx=ast.Load()), par)
+                drop = {id(a) for a, _ in aliases} | {id(p[1]) for f, p in props.items() if canon.get(f) == p[0]}
+                repl: dict[int, list[ast.stmt]] = {}
+                for w, vals in bound:
+                    fn = enclosing(w)
+                    sn = fn.args.args[0].arg
+                    new: list[ast.stmt] = []
+                    for f in fnames:
+                        a = ast.Assign(targets=[ast.Attribute(value=ast.Name(id=sn, ctx=ast.Load()), attr=canon[f], ctx=ast.Store())], value=copy.deepcopy(vals[f]))
+                        ast.copy_location(a, w)
+                        for sub in ast.walk(a):
+                            if getattr(sub, "lineno", None) is None:
+                                ast.copy_location(sub, w)
+                        ast.fix_missing_locations(a)
+                        new.append(a)
+                    repl[id(w)] = new
+                for n in ast.walk(cls):
+                    for fld in ("body", "orelse", "finalbody"):
+                        seq = getattr(n, fld, None)
+                        if isinstance(seq, list) and seq and isinstance(seq[0], ast.stmt):
+                            out: list[ast.stmt] = []
+                            for st in seq:
+                                if id(st) in repl:
+                                    out.extend(repl[id(st)])
+                                elif id(st) in drop:
+                                    continue
+                                else:
+                                    out.append(st)
+                            if not out:
+                                out = [ast.copy_location(ast.Pass(), seq[0])]
+                            seq[:] = out
+                for f, c in canon.items():
+                    ren_all[f"{S}.{f}"] = c
+                # the parent map is stale for the rewritten nodes: rebuild for the next record of this class
+                parent.clear()
+                for n in ast.walk(cls):
+                    for ch in ast.iter_child_nodes(n):
+                        parent[id(ch)] = n
+                cnt = {}
+                for n in ast.walk(tree):
+                    if isinstance(n, ast.Attribute):
+                        cnt[n.attr] = cnt.get(n.attr, 0) + 1
+                attr_uses[mname] = cnt
+            # a recorded attribute that vanished while one new private attribute of overlapping name appeared
+            if qual in known:
+                stored = {n.attr for n in ast.walk(cls) if isinstance(n, ast.Attribute) and isinstance(n.ctx, (ast.Store, ast.Del)) and isinstance(n.value, ast.Name)}
+                members = {st.name for st in cls.body if isinstance(st, (ast.FunctionDef, ast.AsyncFunctionDef))}
+                used = {n.attr for n in ast.walk(cls) if isinstance(n, ast.Attribute)}
+                missing = [k for k in known[qual] if k not in used and k not in members]
+                new_attrs = [a for a in stored if a not in known[qual] and a.startswith("_") and not a.startswith("__")]
+                for k in missing:
+                    scored = sorted(((_tok_score(a, k), a) for a in new_attrs if a not in ren_all), reverse=True)
+                    if scored and scored[0][0] >= 0.5 and (len(scored) == 1 or scored[1][0] < scored[0][0]):
+                        a = scored[0][1]
+                        rivals = [k2 for k2 in missing if k2 != k and _tok_score(a, k2) >= scored[0][0]]
+                        inside = sum(1 for n in ast.walk(cls) if isinstance(n, ast.Attribute) and n.attr == a)
+                        if rivals or used_outside(mname, a, inside) or any(c.get(k, 0) for m, c in attr_uses.items() if m != mname and False):
+                            continue
+                        for n in ast.walk(cls):
+                            if isinstance(n, ast.Attribute) and n.attr == a:
+                                n.attr = k
+                        ren_all[a] = k
+                        new_attrs.remove(a)
+            if ren_all:
+                done[qual] = ren_all
+    return done
+
+
+# ------------------------------------------------------------------ generator helpers: delegating iterators, @contextmanager
+
+def _is_docstring(st: ast.stmt) -> bool:
+    return isinstance(st, ast.Expr) and isinstance(st.value, ast.Constant) and isinstance(st.value.value, str)
+
+
+def _simple_arg(e: ast.expr) -> bool:
+    """an argument that can be substituted for a parameter: evaluating it has no effect and cannot be observed twice"""
+    return all(isinstance(n, (ast.Name, ast.Attribute, ast.Constant, ast.Load, ast.BinOp, ast.operator, ast.UnaryOp, ast.unaryop)) for n in ast.walk(e))
+
+
+def _bind_args(fn: ast.FunctionDef, call: ast.Call, recv: ast.expr | None) -> dict[str, ast.expr] | None:
+    a = fn.args
+    if a.vararg or a.kwarg or a.posonlyargs or any(isinstance(x, ast.Starred) for x in call.args) or any(k.arg is None for k in call.keywords):
+        return None
+    params = [p.arg for p in a.args]
+    out: dict[str, ast.expr] = {}
+    if recv is not None:
+        if not params:
+            return None
+        out[params[0]] = recv
+        params = params[1:]
+    if len(call.args) > len(params):
+        return None
+    for p, v in zip(params, call.args):
+        out[p] = v
+    for k in call.keywords:
+        if k.arg in out or k.arg not in params + [p.arg for p in a.kwonlyargs]:
+            return None
+        out[k.arg] = k.value
+    defaults = dict(zip([p.arg for p in a.args][len(a.args) - len(a.defaults):], a.defaults))
+    defaults.update({p.arg: d for p, d in zip(a.kwonlyargs, a.kw_defaults) if d is not None})
+    for p in params + [p.arg for p in a.kwonlyargs]:
+        if p not in out:
+            if p not in defaults:
+                return None
+            out[p] = defaults[p]
+    if not all(_simple_arg(v) for v in out.values()):
+        return None
+    return out
+
+
+class _Subst(ast.NodeTransformer):
+    def __init__(self, mp: dict[str, ast.expr], ren: dict[str, str]) -> None:
+        self.mp, self.ren = mp, ren
+
+    def visit_Name(self, n: ast.Name) -> ast.AST:
+        import copy
+
+        if n.id in self.mp and isinstance(n.ctx, ast.Load):
+            return ast.copy_location(copy.deepcopy(self.mp[n.id]), n)
+        if n.id in self.ren:
+            return ast.copy_location(ast.Name(id=self.ren[n.id], ctx=n.ctx), n)
+        return n
+
+
+def inline_generator_helpers(trees: dict[str, ast.Module], known_funcs: set[str]) -> dict[str, int]:
+    """Two generator idioms that only re-spell what their caller could have written in place, expanded in memory:
+
+    * a delegating iterator - `def _attempt_numbers(n): yield from range(1, n + 1)` (or `for x in E: yield x`) - called
+      with plain arguments: the call is the iterable it delegates to;
+    * a `@contextmanager` function or method with exactly one `yield` statement and no `return`, used as
+      `with helper(...):` - PEP 343 plus the contextlib protocol make the with-block run where the `yield` stands, with
+      the helper's own `with` / `try` around it: the block is spliced into a copy of the helper's body (parameters
+      replaced by the plain arguments, the helper's locals renamed apart).
+
+    Only helpers that did not exist when the rules were written are expanded; a helper whose every use was expanded is
+    dropped from the tree (the CFG builder does not model generators)."""
+    import copy
+
+    done: dict[str, int] = {}
+    for mname, tree in trees.items():
+        # candidate helpers of this module: module-level functions and methods
+        def is_cm(fn: ast.FunctionDef) -> bool:
+            return any(ast.unparse(d).split(".")[-1] == "contextmanager" for d in fn.decorator_list)
+
+        def yields(fn: ast.AST) -> list[ast.AST]:
+            return [n for n in ast.walk(fn) if isinstance(n, (ast.Yield, ast.YieldFrom))]
+
+        funcs: dict[tuple[str | None, str], ast.FunctionDef] = {}
+        for st in tree.body:
+            if isinstance(st, ast.FunctionDef):
+                funcs[(None, st.name)] = st
+            elif isinstance(st, ast.ClassDef):
+                for m in st.body:
+                    if isinstance(m, ast.FunctionDef):
+                        funcs[(st.name, m.name)] = m
+        helpers: dict[tuple[str | None, str], tuple[str, ast.FunctionDef]] = {}
+        for (cn, fnm), fn in funcs.items():
+            qual = f"{mname}:{cn + '.' if cn else ''}{fnm}"
+            if qual in known_funcs or not yields(fn):
+                continue
+            body = [b for b in fn.body if not _is_docstring(b)]
+            if is_cm(fn):
+                ys = yields(fn)
+                stmt_y = [n for n in ast.walk(fn) if isinstance(n, ast.Expr) and isinstance(n.value, ast.Yield)]
+                if len(ys) == 1 and len(stmt_y) == 1 and not any(isinstance(n, ast.Return) for n in ast.walk(fn)) and not any(isinstance(n, (ast.FunctionDef, ast.AsyncFunctionDef, ast.Lambda)) for b in body for n in ast.walk(b)):
+                    helpers[(cn, fnm)] = ("cm", fn)
+            elif not fn.decorator_list and cn is None:
+                if len(body) == 1 and isinstance(body[0], ast.Expr) and isinstance(body[0].value, ast.YieldFrom):
+                    helpers[(cn, fnm)] = ("iter", fn)
+                elif len(body) == 1 and isinstance(body[0], ast.For) and not body[0].orelse and len(body[0].body) == 1 and isinstance(body[0].body[0], ast.Expr) and isinstance(body[0].body[0].value, ast.Yield) and isinstance(body[0].target, ast.Name) and isinstance(body[0].body[0].value.value, ast.Name) and body[0].body[0].value.value.id == body[0].target.id:
+                    helpers[(cn, fnm)] = ("iter", fn)
+        if not helpers:
+            continue
+        expanded: dict[tuple[str | None, str], int] = {}
+        failed: set[tuple[str | None, str]] = set()
+
+        def resolve(call: ast.expr, cls_name: str | None, selfn: str | None) -> tuple[tuple[str | None, str], ast.expr | None] | None:
+            if not isinstance(call, ast.Call):
+                return None
+            f = call.func
+            if isinstance(f, ast.Name) and (None, f.id) in helpers:
+                return (None, f.id), None
+            if isinstance(f, ast.Attribute) and isinstance(f.value, ast.Name) and selfn is not None and f.value.id == selfn and (cls_name, f.attr) in helpers:
+                return (cls_name, f.attr), f.value
+            return None
+
+        def expand_in(fn_node: ast.AST, cls_name: str | None) -> None:
+            selfn = fn_node.args.args[0].arg if cls_name is not None and fn_node.args.args else None
+            # delegating iterators: any call expression
+            for n in ast.walk(fn_node):
+                for fld, val in ast.iter_fields(n):
+                    vals = val if isinstance(val, list) else [val]
+                    for i, v in enumerate(vals):
+                        r = resolve(v, cls_name, selfn) if isinstance(v, ast.Call) else None
+                        if r is None or helpers[r[0]][0] != "iter":
+                            continue
+                        hfn = helpers[r[0]][1]
+                        mp = _bind_args(hfn, v, r[1])
+                        if mp is None:
+                            failed.add(r[0])
+                            continue
+                        b0 = [b for b in hfn.body if not _is_docstring(b)][0]
+                        src = b0.value.value if isinstance(b0, ast.Expr) else b0.iter
+                        new = _Subst(mp, {}).visit(copy.deepcopy(src))
+                        ast.copy_location(new, v)
+                        ast.fix_missing_locations(new)
+                        if isinstance(val, list):
+                            val[i] = new
+                        else:
+                            setattr(n, fld, new)
+                        expanded[r[0]] = expanded.get(r[0], 0) + 1
+            # context managers: `with helper(...) [as x]: BODY`
+            for n in ast.walk(fn_node):
+                for fld in ("body", "orelse", "finalbody"):
+                    seq = getattr(n, fld, None)
+                    if not (isinstance(seq, list) and seq and isinstance(seq[0], ast.stmt)):
+                        continue
+                    out: list[ast.stmt] = []
+                    for st in seq:
+                        r = resolve(st.items[0].context_expr, cls_name, selfn) if isinstance(st, ast.With) and len(st.items) == 1 else None
+                        if r is None or helpers[r[0]][0] != "cm":
+                            out.append(st)
+                            continue
+                        hfn = helpers[r[0]][1]
+                        mp = _bind_args(hfn, st.items[0].context_expr, r[1])
+                        stored = {x.id for x in ast.walk(hfn) if isinstance(x, ast.Name) and isinstance(x.ctx, (ast.Store, ast.Del))}
+                        if mp is None or stored & set(mp):
+                            failed.add(r[0])
+                            out.append(st)
+                            continue
+                        ren = {nm: f"__cm_{hfn.name}_{nm}" for nm in stored}
+                        body = [copy.deepcopy(b) for b in hfn.body if not _is_docstring(b)]
+                        wrapper = ast.Module(body=body, type_ignores=[])
+                        wrapper = _Subst(mp, ren).visit(wrapper)
+                        block: list[ast.stmt] = list(st.body)
+                        placed = False
+                        for m in ast.walk(wrapper):
+                            for fld2 in ("body", "orelse", "finalbody"):
+                                seq2 = getattr(m, fld2, None)
+                                if isinstance(seq2, list):
+                                    for j, s2 in enumerate(seq2):
+                                        if isinstance(s2, ast.Expr) and isinstance(s2.value, ast.Yield):
+                                            pre: list[ast.stmt] = []
+                                            tgt = st.items[0].optional_vars
+                                            if tgt is not None:
+                                                asg = ast.Assign(targets=[tgt], value=s2.value.value if s2.value.value is not None else ast.Constant(value=None))
+                                                ast.copy_location(asg, st)
+                                                pre.append(asg)
+                                            seq2[j : j + 1] = pre + block
+                                            placed = True
+                                            break
+                                if placed:
+                                    break
+                            if placed:
+                                break
+                        if not placed:
+                            failed.add(r[0])
+                            out.append(st)
+                            continue
+                        for b in wrapper.body:
+                            ast.fix_missing_locations(b)
+                        out.extend(wrapper.body)
+                        expanded[r[0]] = expanded.get(r[0], 0) + 1
+                    seq[:] = out
+
+        for st in tree.body:
+            if isinstance(st, (ast.FunctionDef, ast.AsyncFunctionDef)) and (None, st.name) not in helpers:
+                expand_in(st, None)
+            elif isinstance(st, ast.ClassDef):
+                for m in st.body:
+                    if isinstance(m, (ast.FunctionDef, ast.AsyncFunctionDef)) and (st.name, m.name) not in helpers:
+                        expand_in(m, st.name)
+        # drop the helpers whose every use was expanded
+        for key, (kind, hfn) in helpers.items():
+            if key in failed or not expanded.get(key):
+                continue
+            cn, fnm = key
+            refs = sum(1 for n in ast.walk(tree) if (isinstance(n, ast.Name) and n.id == fnm and cn is None) or (isinstance(n, ast.Attribute) and n.attr == fnm and cn is not None))
+            other = any((isinstance(n, ast.Attribute) and n.attr == fnm) or (isinstance(n, ast.alias) and n.name == fnm) or (isinstance(n, ast.Name) and n.id == fnm and cn is None) for m2, t2 in trees.items() if m2 != mname for n in ast.walk(t2))
+            if refs or other:
+                continue
+            owner = tree.body if cn is None else next(c for c in tree.body if isinstance(c, ast.ClassDef) and c.name == cn).body
+            owner.remove(hfn)
+            if not owner:
+                owner.append(ast.Pass())
+            done[f"{mname}:{cn + '.' if cn else ''}{fnm}"] = expanded[key]
+    return done
